@@ -444,6 +444,51 @@ func main() {
 			out.put(fmt.Sprintf("eval %s %s %s", meth, encE, encStr(src)), res, verdict("C14", c14), verdict("C08", panicOnly(res)))
 		}
 		out.close()
+	case "reload": // <seed> <n> <outdir>: histories in enumeration order starting at seed*n (exhaustive when n covers them all)
+		seed, _ := strconv.ParseUint(os.Args[2], 10, 64)
+		n, _ := strconv.Atoi(os.Args[3])
+		out := openOut(os.Args[4])
+		total := 4 * (1 + 5 + 25 + 125 + 625 + 3125 + 15625 + 78125)
+		for i := 0; i < n; i++ {
+			idx := i
+			if n < total { // sample: short histories first, then random long ones
+				if i >= 4*(1+5+25+125+625) {
+					r := NewRng(seed, uint64(i))
+					idx = 4*(1+5+25+125+625) + r.Intn(total-4*(1+5+25+125+625))
+				}
+			}
+			hot, first, ops, ok := reloadHistory(idx)
+			if !ok {
+				break
+			}
+			line, c18 := runReloadHistory(hot, first, ops)
+			out.count(fmt.Sprintf("len%d", len(ops)))
+			h, f := 0, 0
+			if hot {
+				h = 1
+			}
+			if first {
+				f = 1
+			}
+			if ops == "" {
+				ops = "."
+			}
+			out.put(fmt.Sprintf("reload %d %d %s", h, f, ops), line, verdict("C18", c18), verdict("C08", panicOnly(line)))
+		}
+		out.close()
+	case "race": // <C15|C18> <seed> <rounds>  (binary built with -race)
+		seed, _ := strconv.ParseUint(os.Args[3], 10, 64)
+		rounds, _ := strconv.Atoi(os.Args[4])
+		var res string
+		if os.Args[2] == "C15" {
+			res = raceC15(seed, rounds)
+		} else {
+			res = raceC18(seed, rounds)
+		}
+		fmt.Println(res)
+		if strings.HasPrefix(res, "FAIL") {
+			os.Exit(1)
+		}
 	case "plain": // <seed> <n> <outdir>
 		seed, _ := strconv.ParseUint(os.Args[2], 10, 64)
 		n, _ := strconv.Atoi(os.Args[3])
